@@ -139,6 +139,9 @@ func report(eng *Engine, prop, tier string, seed int, verif string, results []*f
 			for _, a := range r.c.Assumes {
 				assumptions["assumes in "+fr.Name+": "+a.Text] = true
 			}
+			if r.c.ModAssumed {
+				assumptions["modifies clause of "+fr.Name+" assumed, not checked against its body"] = true
+			}
 			for _, a := range r.c.AssumedPost {
 				assumptions["assumed postcondition (boundary) of "+fr.Name+": "+a.Text] = true
 			}
@@ -163,6 +166,15 @@ func report(eng *Engine, prop, tier string, seed int, verif string, results []*f
 		break
 	}
 	// axioms
+	for _, c := range eng.contracts.Funcs {
+		if c.Extern {
+			var cl []string
+			for _, e := range c.Ensures {
+				cl = append(cl, e.Text)
+			}
+			assumptions["assumed library contract "+c.Pkg+"."+c.FuncName+": "+strings.Join(cl, "; ")] = true
+		}
+	}
 	for _, a := range eng.contracts.Axioms {
 		if !a.Lemma {
 			assumptions["axiom "+a.Name+": "+a.Text] = true
